@@ -72,7 +72,7 @@ func block(a netip.Addr, bits int) refRange {
 
 // refParse classifies a specification string per the statement.
 func refParse(s string) (refRange, refVerdict) {
-	if strings.ContainsAny(s, " \t\n%+") {
+	if strings.ContainsAny(s, " \t\n%") {
 		return refRange{}, refUnclassified
 	}
 	if i := strings.IndexAny(s, "/-"); i >= 0 {
@@ -102,8 +102,10 @@ func refParse(s string) (refRange, refVerdict) {
 			return refRange{}, refUnclassified
 		}
 		if n, err := strconv.Atoi(right); err == nil {
-			if right != strconv.Itoa(n) { // leading zeros, signs: not classified by the statement
-				if n < 0 {
+			if right != strconv.Itoa(n) {
+				// a sign is not part of a prefix length ("/-0" would otherwise be the whole address space):
+				// not a documented form, hence rejected; leading zeros are not classified by the statement
+				if n < 0 || right[0] == '+' || right[0] == '-' {
 					return refRange{}, refReject
 				}
 				return refRange{}, refUnclassified
@@ -262,7 +264,13 @@ func c14Specs(e *Env, r *rand.Rand) []string {
 		add(bad)
 	}
 	// unclassified forms (generated, recorded, not judged)
-	for _, u := range []string{"::ffff:10.0.0.0/104", "::ffff:10.0.0.1-::ffff:10.0.0.9", " 10.0.0.1", "10.0.0.0/+24", "10.0.0.0/024", "fe80::1%lo"} {
+	for _, sg := range []string{"+24", "-0", "+0", "-00", "+8", "+32", "+032", "-32"} {
+		add("10.0.0.0/" + sg)
+		add("2001:db8::/" + sg)
+	}
+	add("2001:db8::/+128")
+	add("2001:db8::/+64")
+	for _, u := range []string{"::ffff:10.0.0.0/104", "::ffff:10.0.0.1-::ffff:10.0.0.9", " 10.0.0.1", "10.0.0.0/024", "fe80::1%lo"} {
 		add(u)
 	}
 	return specs
